@@ -1738,6 +1738,15 @@ struct MemWorld : World
     CellWatch cw{ S[(size_t)s].impl()->gptr(off), {}, 0 };
     PT old_rep;
     memcpy(&old_rep, cw.gcell, sizeof old_rep);
+    // the bytes around the cell (other array elements, neighbouring fields) are not the store's business
+    const size_t lo = off >= 16 ? 16 : off, hi = std::min<size_t>(16, S[(size_t)s].size() - off - sizeof(PT));
+    uint8_t around_before[16 + sizeof(PT) + 16];
+    memcpy(around_before, cw.gcell - lo, lo + sizeof(PT) + hi);
+    if (hi >= 4 && around_before[lo + sizeof(PT)] == 0 && around_before[lo + sizeof(PT) + 1] == 0 && around_before[lo + sizeof(PT) + 2] == 0 && around_before[lo + sizeof(PT) + 3] == 0) {
+      // make the neighbour visibly non-zero
+      memset(cw.gcell + sizeof(PT), 0x5C, 4);
+      memset(around_before + lo + sizeof(PT), 0x5C, 4);
+    }
     if (Sbx::cfg.mmu)
       mmu::arm(S[(size_t)s].impl()->mem.base, S[(size_t)s].size(), watch_hook, &cw);
     Outcome o = attempt([&] {
@@ -1757,6 +1766,12 @@ struct MemWorld : World
           C->violate("C04", "cell_held_representation_never_stored@store", "cell went from %llu to %llu, in between the guest could read %llu", (unsigned long long)old_rep, (unsigned long long)new_rep, (unsigned long long)cw.seen[i]);
     }
     C->ev("store -> %s", oname(o));
+    {
+      uint8_t around_after[16 + sizeof(PT) + 16];
+      memcpy(around_after, cw.gcell - lo, lo + sizeof(PT) + hi);
+      if (!C->stop && (memcmp(around_before, around_after, lo) != 0 || memcmp(around_before + lo + sizeof(PT), around_after + lo + sizeof(PT), hi) != 0))
+        C->violate("C04", "store_changed_bytes_next_to_the_cell@store", "a %s store into the %zu-byte cell at offset %u changed sandbox bytes before or behind it", as_null ? "null" : "pointer", sizeof(PT), off);
+    }
     if (o == OK)
       check_store(s, off, as_null ? 0 : (uintptr_t)qv.UNSAFE_unverified(), "store");
     else
